@@ -749,3 +749,18 @@ Proof.
     intros p H. unfold tc_honest in H. destruct (Z.eq_dec p 2) as [E|E]; [left; symmetry; exact E|].
     apply Z.eqb_neq in E. rewrite E in H. discriminate.
 Qed.
+
+(* a pusher: height 5 is requested from peer 1; peer 3 pushes the (genuine) block 5: the premises
+   of C13_unsolicited_block_stops_sender hold, 3 is stopped, the request stays with peer 1 *)
+Example C13_unsolicited_nonvacuous :
+  let m := run ex_vb ex_ab (verify_commit ideal_verify)
+               [OStatus 1 5 6; OStatus 3 5 6; OMakeRequester; OPick 5 1] ex_n0 in
+  let m' := step ex_vb ex_ab (verify_commit ideal_verify) m (OBlock 3 ex_b5) in
+  n_panicked m = false /\ ~ In 3 (n_stopped m) /\
+  (exists r, req_at (n_pool m) (b_height ex_b5) = Some r /\ (rq_block r <> None \/ rq_peer r <> 3)) /\
+  n_stopped m' = [3] /\ supplier isig m' 5 = 1 /\ block_at (n_pool m') 5 = None.
+Proof.
+  cbv zeta. split; [vm_compute; reflexivity|]. split; [vm_compute; intros []|].
+  split; [eexists; split; [vm_compute; reflexivity | right; vm_compute; discriminate]|].
+  repeat split; vm_compute; reflexivity.
+Qed.
